@@ -157,17 +157,17 @@ impl AnyCell {
     fn call(&self, c: Call, p: &Probe, gate: &Gate) -> Res {
         match self { AnyCell::Plain(x) => do_call_on(x, c, p, gate), AnyCell::Tracked(x) => do_call_on(x, c, p, gate), AnyCell::Bomb(x) => do_call_on(x, c, p, gate) }
     }
-    fn is_init(&self) -> bool {
-        match self { AnyCell::Plain(x) => x.get().is_some(), AnyCell::Tracked(x) => x.get().is_some(), AnyCell::Bomb(x) => x.get().is_some() }
-    }
 }
 
 /// One cell with everything the oracle knows about it.
 struct Live {
     kind: Kind,
-    cell: AnyCell,
+    /// shared with helper threads; a helper that never returns (blocked call) keeps its clone forever
+    cell: Arc<AnyCell>,
     seed_uid: Option<u64>,
-    probe: Probe,
+    probe: Arc<Probe>,
+    /// a call on this cell did not return (reported once; the cell is abandoned)
+    blocked: std::cell::Cell<bool>,
     /// statement-level expectation of the seed content (initial + every delta an initialiser added)
     exp_seed: u64,
     /// (value, address) of the first reference handed out
@@ -178,15 +178,28 @@ struct Live {
 impl Live {
     fn new(kind: Kind, c: u64) -> Live {
         let (cell, seed_uid) = AnyCell::new(kind, c);
-        Live { kind, cell, seed_uid, probe: Probe::default(), exp_seed: c, first_ref: None, succeeded: false }
+        Live { kind, cell: Arc::new(cell), seed_uid, probe: Arc::new(Probe::default()), blocked: std::cell::Cell::new(false), exp_seed: c, first_ref: None, succeeded: false }
     }
+    /// `get()` on a helper thread, so that a `get` that blocks (it never may) is reported instead of hanging the harness.
+    fn get_guarded(&self, rec: &mut CaseRec, ctx: &str) -> Option<Res> {
+        if self.blocked.get() { return None; }
+        let (cell, probe) = (self.cell.clone(), self.probe.clone());
+        let (tx, rx) = mpsc::channel();
+        std::thread::spawn(move || { let r = cell.call(Call::Get, &probe, &None); drop((cell, probe)); let _ = tx.send(r); });
+        match rx.recv_timeout(Duration::from_secs(3)) {
+            Ok(r) => Some(r),
+            Err(_) => { self.blocked.set(true); rec.oracle_fail(format!("get-blocked {ctx}: get() did not return within 3 s")); None }
+        }
+    }
+    fn is_init(&self, rec: &mut CaseRec, ctx: &str) -> bool { matches!(self.get_guarded(rec, ctx), Some(Res::Ref(..))) }
     fn seed_drops(&self) -> u32 { self.seed_uid.map(drops_of).unwrap_or(0) }
     fn vals_made(&self) -> usize { self.probe.made.lock().unwrap().len() }
     fn val_drops(&self) -> u32 { self.probe.made.lock().unwrap().iter().map(|(u, _)| drops_of(*u)).sum() }
 
     /// Checks that hold at every quiescent point (no call in flight), from the statement.
     fn quiescent_oracle(&self, rec: &mut CaseRec, ctx: &str) {
-        let init = self.cell.is_init();
+        let init = self.is_init(rec, ctx);
+        if self.blocked.get() { return; }
         let ok_runs = self.probe.ok_runs.load(Ordering::SeqCst);
         if ok_runs > 1 { rec.oracle_fail(format!("init-ran-twice {ctx}: {ok_runs} initialisers succeeded")); }
         if init != (ok_runs == 1) { rec.oracle_fail(format!("init-state-wrong {ctx}: get().is_some()={init} but {ok_runs} initialiser(s) succeeded")); }
@@ -203,8 +216,9 @@ impl Live {
 
     /// Drops the cell; returns (seed drops, value drops, panicked) and checks the ledger.
     fn drop_cell(self, rec: &mut CaseRec, ctx: &str) -> (u32, u32, bool) {
+        let was_init = self.is_init(rec, ctx);
         let Live { cell, seed_uid, probe, kind, .. } = self;
-        let was_init = cell.is_init();
+        let cell = match Arc::try_unwrap(cell) { Ok(c) => c, Err(_) => return (0, 0, false) }; // a blocked helper still holds it (already reported)
         let panicked = catch_unwind(AssertUnwindSafe(move || drop(cell))).is_err();
         let made = probe.made.lock().unwrap().clone();
         let sd = seed_uid.map(drops_of).unwrap_or(0);
@@ -218,6 +232,28 @@ impl Live {
         forget_uids(&uids);
         (sd, vd, panicked)
     }
+}
+
+/// Runs every call list on its own thread, all released together; `None` if a thread has not
+/// finished after 10 s (the threads are then abandoned).
+fn run_threads(lv: &Live, ths: &[Vec<Call>], stagger: usize, gate: Gate) -> Option<Vec<Vec<(Call, Res)>>> {
+    let k = ths.len();
+    let bar = Arc::new(Barrier::new(k));
+    let (tx, rx) = mpsc::channel::<(usize, Vec<(Call, Res)>)>();
+    for (t, calls) in ths.iter().enumerate() {
+        let (cell, probe, bar, tx, calls, gate) = (lv.cell.clone(), lv.probe.clone(), bar.clone(), tx.clone(), calls.clone(), gate.clone());
+        std::thread::spawn(move || {
+            bar.wait();
+            for _ in 0..((stagger + t) % 3) { std::hint::spin_loop(); }
+            let r: Vec<(Call, Res)> = calls.iter().map(|c| (*c, cell.call(*c, &probe, &gate))).collect();
+            drop((cell, probe, gate));
+            let _ = tx.send((t, r));
+        });
+    }
+    let mut got = vec![];
+    while got.len() < k { match rx.recv_timeout(Duration::from_secs(10)) { Ok(x) => got.push(x), Err(_) => return None } }
+    got.sort_by_key(|x| x.0);
+    Some(got.into_iter().map(|x| x.1).collect())
 }
 
 fn parse_threads(w: &[&str]) -> Vec<Vec<Call>> {
@@ -353,15 +389,16 @@ impl Engine for CellEngine {
                         "cell.initinf" => Call::InitInf(w[1].parse().expect("delta")),
                         _ => Call::Init(match w[1] { "ok" => OK::Ok, "err" => OK::Err, "panic" => OK::Panic, o => panic!("cell engine: outcome {o}") }, w[2].parse().expect("delta")),
                     };
+                    if lv.blocked.get() { continue; }
+                    let ctx = format!("{} cell, `{line}`", lv.kind.name());
                     let runs0 = lv.probe.f_runs.load(Ordering::SeqCst);
-                    let r = lv.cell.call(call, &lv.probe, &None);
+                    let r = match call { Call::Get => match lv.get_guarded(rec, &ctx) { Some(r) => r, None => continue }, _ => lv.cell.call(call, &lv.probe, &None) };
                     let ran = lv.probe.f_runs.load(Ordering::SeqCst) - runs0;
                     let model_line = match call { Call::InitInf(d) => format!("cell.init ok {d}"), _ => line.clone() };
                     rec.op(model_line, r.show());
                     rec.nontrivial = true;
                     rec.stat(format!("{}/{}", w[0], match r { Res::None => "none", Res::Ref(..) => "ref", Res::Err(_) => "err", Res::PanicF => "panicF", Res::PanicDrop => "panicDrop" }));
                     // ---- oracle, from the statement
-                    let ctx = format!("{} cell, `{line}`", lv.kind.name());
                     match call {
                         Call::Get => {
                             if ran != 0 { rec.oracle_fail(format!("init-run-count {ctx}: get ran an initialiser")); }
@@ -384,7 +421,7 @@ impl Engine for CellEngine {
                                 let same = match (r, want) { (Res::Ref(a, _), Res::Ref(b, _)) => a == b, (a, b) => a == b };
                                 if !same { rec.oracle_fail(format!("init-result-wrong {ctx}: got {r:?}, expected {want:?}")); }
                                 if k == OK::Ok { lv.succeeded = true; }
-                                else if lv.cell.is_init() { rec.oracle_fail(format!("failure-initialised {ctx}: the cell is initialised after a failed initialiser")); }
+                                else if lv.is_init(rec, &ctx) { rec.oracle_fail(format!("failure-initialised {ctx}: the cell is initialised after a failed initialiser")); }
                             }
                         }
                     }
@@ -397,11 +434,14 @@ impl Engine for CellEngine {
                 }
                 "cell.state" => {
                     let Some(lv) = live.as_ref() else { rec.op(line.clone(), "bad-op"); continue };
-                    rec.op(line.clone(), format!("init={} seed_drops={} vals={} ub=false", lv.cell.is_init(), lv.seed_drops(), lv.vals_made()));
+                    let init = lv.is_init(rec, "cell.state");
+                    if lv.blocked.get() { continue; }
+                    rec.op(line.clone(), format!("init={init} seed_drops={} vals={} ub=false", lv.seed_drops(), lv.vals_made()));
                 }
                 "cell.drop" => {
                     let Some(lv) = live.take() else { rec.op(line.clone(), "bad-op"); continue };
                     let kind = lv.kind;
+                    if lv.blocked.get() { continue; }
                     let (sd, vd, panicked) = lv.drop_cell(rec, &format!("{} cell, cell.drop", kind.name()));
                     rec.op(line.clone(), format!("dropped seed_drops={sd} val_drops={vd} panicked={panicked} ub=false"));
                     rec.stat(format!("drop/{}{}", kind.name(), if vd > 0 { "/init" } else { "/uninit" }));
@@ -420,22 +460,14 @@ impl Engine for CellEngine {
                     let mut outcomes: BTreeMap<String, usize> = BTreeMap::new();
                     for rep in 0..reps {
                         let lv = Live::new(kind, c);
-                        let bar = Barrier::new(k);
-                        let mut results: Vec<Vec<(Call, Res)>> = vec![];
-                        std::thread::scope(|s| {
-                            let hs: Vec<_> = ths.iter().enumerate().map(|(t, calls)| {
-                                let (lv, bar) = (&lv, &bar);
-                                s.spawn(move || {
-                                    bar.wait();
-                                    for _ in 0..((rep + t) % 3) { std::hint::spin_loop(); }
-                                    calls.iter().map(|c| (*c, lv.cell.call(*c, &lv.probe, &None))).collect::<Vec<_>>()
-                                })
-                            }).collect();
-                            for h in hs { results.push(h.join().expect("worker thread")); }
-                        });
                         let ctx = format!("{} cell, {k} free-running threads `{line}`", kind.name());
+                        let Some(results) = run_threads(&lv, &ths, rep, None) else {
+                            rec.oracle_fail(format!("call-blocked {ctx}: a thread did not return within 10 s"));
+                            break;
+                        };
                         conc_oracle(rec, &lv, &results, &ctx);
-                        let ml = conc_model_line(kind, c, &results, lv.cell.is_init(), lv.seed_drops(), lv.vals_made());
+                        let init = lv.is_init(rec, &ctx);
+                        let ml = conc_model_line(kind, c, &results, init, lv.seed_drops(), lv.vals_made());
                         *outcomes.entry(ml).or_insert(0) += 1;
                         lv.drop_cell(rec, &ctx);
                     }
@@ -454,39 +486,47 @@ impl Engine for CellEngine {
                     let (etx, erx) = mpsc::channel::<()>();
                     let (rtx, rrx) = mpsc::channel::<()>();
                     let gate: Gate = Some((etx, Arc::new(Mutex::new(rrx))));
-                    let mut results: Vec<Vec<(Call, Res)>> = vec![];
-                    std::thread::scope(|s| {
-                        let lvr = &lv;
-                        let ha = s.spawn(move || vec![(a, lvr.cell.call(a, &lvr.probe, &gate))]);
-                        // wait until A's initialiser is running inside the once-closure
-                        let entered = erx.recv_timeout(Duration::from_secs(10)).is_ok();
-                        if !entered { rec.oracle_fail(format!("init-not-run {ctx}: the first initialiser never started")); }
-                        // `get` must answer None at once while an initialiser is running
-                        let mut main_res = vec![];
-                        let get_once = |rec: &mut CaseRec, main_res: &mut Vec<(Call, Res)>| {
-                            let (gtx, grx) = mpsc::channel();
-                            s.spawn(move || { let _ = gtx.send(lvr.cell.call(Call::Get, &lvr.probe, &None)); });
-                            match grx.recv_timeout(Duration::from_secs(3)) {
-                                Ok(r) => { if r != Res::None { rec.oracle_fail(format!("get-wrong {ctx}: get answered {r:?} while the initialiser was still running")); } main_res.push((Call::Get, r)); }
-                                Err(_) => rec.oracle_fail(format!("get-blocked {ctx}: get did not return within 3 s while an initialiser was running")),
-                            }
-                        };
-                        get_once(rec, &mut main_res);
-                        let hb: Vec<_> = bs.iter().map(|b| { let b = *b; s.spawn(move || vec![(b, lvr.cell.call(b, &lvr.probe, &None))]) }).collect();
-                        // give the others time to reach the once (search aid only; nothing is concluded from it)
-                        std::thread::sleep(Duration::from_micros(300));
-                        let runs_inside = lv.probe.f_runs.load(Ordering::SeqCst);
-                        if runs_inside != 1 { rec.oracle_fail(format!("init-overlap {ctx}: {runs_inside} initialisers were running/had run while the first one was still inside the closure")); }
-                        get_once(rec, &mut main_res);
-                        let _ = rtx.send(());
-                        results.push(main_res);
-                        results.push(ha.join().expect("thread A"));
-                        for h in hb { results.push(h.join().expect("thread B")); }
-                    });
-                    conc_oracle(rec, &lv, &results, &ctx);
-                    rec.op(conc_model_line(kind, c, &results, lv.cell.is_init(), lv.seed_drops(), lv.vals_made()), "lin-ok");
+                    let (restx, resrx) = mpsc::channel::<(usize, Vec<(Call, Res)>)>();
+                    {
+                        let (cell, probe, restx) = (lv.cell.clone(), lv.probe.clone(), restx.clone());
+                        std::thread::spawn(move || { let r = cell.call(a, &probe, &gate); drop((cell, probe, gate)); let _ = restx.send((1, vec![(a, r)])); });
+                    }
+                    // wait until A's initialiser is running inside the once-closure
+                    if erx.recv_timeout(Duration::from_secs(10)).is_err() { rec.oracle_fail(format!("init-not-run {ctx}: the first initialiser never started")); }
+                    // `get` must answer None at once while an initialiser is running
+                    let mut main_res = vec![];
+                    let get_once = |rec: &mut CaseRec, main_res: &mut Vec<(Call, Res)>| {
+                        if let Some(r) = lv.get_guarded(rec, &format!("{ctx} (while an initialiser was running)")) {
+                            if r != Res::None { rec.oracle_fail(format!("get-wrong {ctx}: get answered {r:?} while the initialiser was still running")); }
+                            main_res.push((Call::Get, r));
+                        }
+                    };
+                    get_once(rec, &mut main_res);
+                    for (n, b) in bs.iter().enumerate() {
+                        let (cell, probe, restx, b) = (lv.cell.clone(), lv.probe.clone(), restx.clone(), *b);
+                        std::thread::spawn(move || { let r = cell.call(b, &probe, &None); drop((cell, probe)); let _ = restx.send((2 + n, vec![(b, r)])); });
+                    }
+                    // give the others time to reach the once (search aid only; nothing is concluded from it)
+                    std::thread::sleep(Duration::from_micros(300));
+                    let runs_inside = lv.probe.f_runs.load(Ordering::SeqCst);
+                    if runs_inside != 1 { rec.oracle_fail(format!("init-overlap {ctx}: {runs_inside} initialisers were running / had run while the first one was still inside the closure")); }
+                    get_once(rec, &mut main_res);
+                    let _ = rtx.send(());
+                    let mut got: Vec<(usize, Vec<(Call, Res)>)> = vec![(0, main_res)];
+                    while got.len() < 2 + bs.len() {
+                        match resrx.recv_timeout(Duration::from_secs(10)) { Ok(x) => got.push(x), Err(_) => break }
+                    }
                     rec.nontrivial = true;
                     rec.stat(format!("overlap/{}/{}", kind.name(), call_str(a).chars().next().unwrap()));
+                    if got.len() < 2 + bs.len() || lv.blocked.get() {
+                        if !lv.blocked.get() { rec.oracle_fail(format!("call-blocked {ctx}: a thread did not return within 10 s after the held initialiser was released")); }
+                        continue;
+                    }
+                    got.sort_by_key(|x| x.0);
+                    let results: Vec<Vec<(Call, Res)>> = got.into_iter().map(|x| x.1).collect();
+                    conc_oracle(rec, &lv, &results, &ctx);
+                    let init = lv.is_init(rec, &ctx);
+                    rec.op(conc_model_line(kind, c, &results, init, lv.seed_drops(), lv.vals_made()), "lin-ok");
                     lv.drop_cell(rec, &ctx);
                 }
                 other => panic!("cell engine: unknown op {other}"),
